@@ -2,9 +2,11 @@
    stream handed to the top layer (what PositionLayerWriter counts).  After the D7 (name
    length checked first) and D8 (short source is an error) repairs.  Definitions only. *)
 From MLA Require Import Base Stream Blocks.
+From MLA Require Export Limit.
 Open Scope N_scope.
 
 Section Writer.
+  Context {LIM : Limit}.                  (* BINCODE_MAX_DESERIALIZE *)
   Variable FNMAX : N.
   Variables T_START T_CONTENT T_EOA T_EOF : N.
   Variable H : bytes -> bytes.            (* SHA-256 of the bytes absorbed so far, finalized *)
@@ -91,12 +93,27 @@ Section Writer.
     flat_map (fun e => match alookup (w_ids s) (snd e) with Some fi => [(fst e, fi)] | None => [] end)
              (w_files s).
 
-  (* finalize, given the order in which the HashMap is iterated (a permutation of w_footer) *)
+  (* finalize, given the order in which the HashMap is iterated (a permutation of w_footer).
+     lib.rs:862-892: the state becomes Finalized and the EndOfArchiveData block is dumped
+     BEFORE ArchiveFooter::serialize_into is called.  serialize_into (lib.rs:470-509) runs
+     bincode under `.with_limit(BINCODE_MAX_DESERIALIZE)`: a bounded bincode serializer
+     computes the serialised size first (bincode 1.3.3 internal.rs `serialize_into`) and
+     returns SizeLimit -- nothing of the map is written -- when it exceeds the limit
+     (SerializationError, here EDeser as in Archive.v / Src3d); otherwise the map is written
+     and `u32::try_from(serialization_len)` fails (SerializationError, map already written)
+     from 2^32 on.  Either failure leaves the writer Finalized with the end marker (and, for
+     the second, the map without its length) in the destination. *)
+  Definition w_finalized (s : wstate) (out : bytes) : wstate :=
+    mkW out true [] (w_files s) (w_ids s) (w_next s) (w_cur s).
   Definition w_finalize_with (order : footer -> footer) (s : wstate) : wstate * res N :=
     if w_final s then (s, Err EState) else
     match w_open s with
     | _ :: _ => (s, Err EState)
     | [] =>
+      let fm := ser_footer_map (order (w_footer s)) in
+      if lim <? len fm then (w_finalized s (w_out s ++ ser_block BEnd), Err EDeser)
+      else if 2 ^ 32 <=? len fm then (w_finalized s (w_out s ++ ser_block BEnd ++ fm), Err EDeser)
+      else
       let s1 := mkW (w_out s ++ ser_block BEnd ++ ser_footer (order (w_footer s))) true [] (w_files s)
                     (w_ids s) (w_next s) (w_cur s) in
       (s1, Ok 0)
